@@ -43,7 +43,11 @@ for _p in sorted(glob.glob(os.path.join(_here, "reg", "*.py"))):
     _spec = importlib.util.spec_from_file_location("reg_" + os.path.basename(_p)[:-3], _p)
     _m = importlib.util.module_from_spec(_spec)
     _m.group, _m.K, _m.M, _m.STD_STUBS = group, K, M, STD_STUBS
-    _spec.loader.exec_module(_m)
+    try:
+        _spec.loader.exec_module(_m)
+    except Exception as _ex:  # a broken fragment must not take the other properties down
+        import sys as _sys
+        _sys.stderr.write("registry: fragment %s failed to load: %r\n" % (_p, _ex))
 
 _names = [h.name for h in HARNESSES]
 for _a in _names:
